@@ -250,19 +250,20 @@ Record Inv (s : state) : Prop := {
                         = recv_sum (h_trk (hd s)) c + inflight (ch_oh s) c + decs (ch_ho s) c + cnt (leaked s) c;
   inv_recv : Forall (fun t => 0 <= t_recv t) (h_trk (hd s));
   inv_dpos : Forall dpos (ch_ho s);
-  inv_own : Forall (fun e => 1 <= oe_rc e /\ oe_clid e < o_next (ow s)) (o_tab (ow s));
+  inv_own : Forall (fun e => 1 <= oe_rc e /\ Z.abs (oe_clid e) < o_next (ow s)) (o_tab (ow s));
   inv_tab : forall c i, tab_get (h_tab (hd s)) c = Some i ->
                         exists t, nth_error (h_trk (hd s)) i = Some t /\ t_clid t = c;
   inv_alive : Forall (fun t => t_proxy t <> None -> 1 <= t_recv t) (h_trk (hd s));
   inv_pend : forall i t, nth_error (h_trk (hd s)) i = Some t -> 1 <= t_recv t ->
                          t_proxy t <> None \/ In i (h_pend (hd s));
   inv_home : home_ok (rc (o_tab (ow s))) (ch_ho s);
-  inv_nofail : o_failed (ow s) = false
+  inv_nofail : o_failed (ow s) = false;
+  inv_next : 0 < o_next (ow s)
 }.
 
 Lemma Inv_init : Inv init.
 Proof.
-  constructor; cbn; auto; try (intros; discriminate).
+  constructor; cbn; auto; try (intros; discriminate); try reflexivity.
   intros i t H. destruct i; discriminate.
 Qed.
 
@@ -273,11 +274,14 @@ Proof.
   pose proof (decs_nonneg _ c (inv_dpos s I)). pose proof (cnt_nonneg (leaked s) c). lia.
 Qed.
 
-Lemma fresh_clid s : Inv s -> find_clid (o_tab (ow s)) (o_next (ow s)) = None.
+Lemma new_clid_abs x n : 0 < n -> Z.abs (new_clid x n) = n.
+Proof. intros H. unfold new_clid, callable_clid. destruct (x <? 0); lia. Qed.
+
+Lemma fresh_clid s x : Inv s -> find_clid (o_tab (ow s)) (new_clid x (o_next (ow s))) = None.
 Proof.
   intros I. destruct (find_clid _ _) as [e|] eqn:F; [|reflexivity].
   apply find_clid_some in F as [Hin E]. pose proof (inv_own s I) as H. rewrite Forall_forall in H.
-  specialize (H e Hin). lia.
+  specialize (H e Hin). pose proof (new_clid_abs x _ (inv_next s I)). rewrite E in H. lia.
 Qed.
 
 (* ---- Send *)
@@ -309,9 +313,10 @@ Proof.
     + apply (inv_pend s I).
     + eapply home_ok_mono; [|apply (inv_home s I)]. intros c. cbv beta. rewrite R. destruct (_ =? _); lia.
     + apply (inv_nofail s I).
+    + apply (inv_next s I).
   - (* first transmission: a fresh clid *)
-    pose proof (fresh_clid s I) as Fr.
-    set (c := o_next (ow s)) in *.
+    pose proof (fresh_clid s x I) as Fr. pose proof (new_clid_abs x _ (inv_next s I)) as Ab.
+    set (c := new_clid x (o_next (ow s))) in *.
     assert (E0 : rc ({| oe_obj := x; oe_clid := c; oe_rc := 0 |} :: o_tab (ow s)) c = 0).
     { rewrite rc_cons. cbn [oe_clid oe_rc]. rewrite Z.eqb_refl. reflexivity. }
     rewrite E0, send_spec. cbn [fst].
@@ -334,6 +339,7 @@ Proof.
     + apply (inv_pend s I).
     + eapply home_ok_mono; [|apply (inv_home s I)]. intros k. cbv beta. rewrite R. destruct (_ =? _); lia.
     + apply (inv_nofail s I).
+    + pose proof (inv_next s I). lia.
 Qed.
 
 (* ---- the holder receives a my-reference *)
@@ -428,6 +434,7 @@ Proof.
     left. congruence.
   - apply (inv_home s I).
   - apply (inv_nofail s I).
+  - apply (inv_next s I).
 Qed.
 
 (* ---- the holder receives the answer to a decref *)
@@ -454,6 +461,7 @@ Proof.
   - apply (inv_pend s I).
   - apply (inv_home s I).
   - apply (inv_nofail s I).
+  - apply (inv_next s I).
 Qed.
 
 Lemma Inv_recv_oh s : Inv s -> Inv (fst (do_recv_oh s)).
@@ -506,6 +514,7 @@ Proof.
     + pose proof (inv_home s I) as H. rewrite Hch in H. cbn [home_ok] in H.
       eapply home_ok_mono; [|exact H]. intros k. cbv beta. rewrite R. lia.
     + apply (inv_nofail s I).
+    + apply (inv_next s I).
   - constructor; cbn [ow hd ch_oh ch_ho leaked]; try apply I.
     + intros k0. pose proof (inv_count s I k0) as E. rewrite Hch in E. cbn [decs] in E. exact E.
     + pose proof (inv_dpos s I) as D. rewrite Hch in D. inversion D; assumption.
@@ -622,14 +631,15 @@ Proof. exact (inv_count _ (Inv_reachable ops) c). Qed.
 
 Record OwnWf (s : state) : Prop := {
   ow_alloc_nodup : NoDup (map fst (o_alloc (ow s)));
-  ow_alloc_lt : Forall (fun a => fst a < o_next (ow s)) (o_alloc (ow s));
+  ow_alloc_lt : Forall (fun a => Z.abs (fst a) < o_next (ow s)) (o_alloc (ow s));
+  ow_next_pos : 0 < o_next (ow s);
   ow_clids : NoDup (map oe_clid (o_tab (ow s)));
   ow_objs : NoDup (map oe_obj (o_tab (ow s)));
   ow_logged : Forall (fun e => In (oe_clid e, oe_obj e) (o_alloc (ow s))) (o_tab (ow s))
 }.
 
 Lemma OwnWf_init : OwnWf init.
-Proof. constructor; cbn; constructor. Qed.
+Proof. constructor; cbn; try constructor. Qed.
 
 Lemma logged_set_rc al tab c v :
   Forall (fun e => In (oe_clid e, oe_obj e) al) tab -> Forall (fun e => In (oe_clid e, oe_obj e) al) (set_rc tab c v).
@@ -647,14 +657,16 @@ Proof.
       * rewrite map_clid_set_rc. apply W.
       * rewrite map_obj_set_rc. apply W.
       * apply logged_set_rc. apply W.
-    + constructor; cbn [ow o_tab o_next o_alloc].
+    + pose proof (new_clid_abs x _ (ow_next_pos s W)) as Ab.
+      constructor; cbn [ow o_tab o_next o_alloc].
       * cbn [map fst]. constructor; [|apply W]. intros Hin. apply in_map_iff in Hin as (a & Ea & Ha).
-        pose proof (ow_alloc_lt s W) as L. rewrite Forall_forall in L. specialize (L a Ha). lia.
-      * constructor; [cbn; lia|]. apply Forall_impl with (2 := ow_alloc_lt s W). intros a Ha. lia.
+        pose proof (ow_alloc_lt s W) as L. rewrite Forall_forall in L. specialize (L a Ha). rewrite Ea in L. lia.
+      * constructor; [cbn [fst]; lia|]. apply Forall_impl with (2 := ow_alloc_lt s W). intros a Ha. lia.
+      * pose proof (ow_next_pos s W). lia.
       * rewrite map_clid_set_rc. cbn [map oe_clid]. constructor; [|apply W].
         intros Hin. apply in_map_iff in Hin as (a & Ea & Ha).
         pose proof (ow_logged s W) as G. rewrite Forall_forall in G. specialize (G a Ha).
-        pose proof (ow_alloc_lt s W) as L. rewrite Forall_forall in L. specialize (L _ G). cbn [fst] in L. lia.
+        pose proof (ow_alloc_lt s W) as L. rewrite Forall_forall in L. specialize (L _ G). cbn [fst] in L. rewrite Ea in L. lia.
       * rewrite map_obj_set_rc. cbn [map oe_obj]. constructor; [|apply W].
         intros Hin. apply in_map_iff in Hin as (a & Ea & Ha).
         pose proof (find_none _ _ F a Ha) as N. cbn in N. apply Z.eqb_neq in N. congruence.
@@ -888,6 +900,7 @@ Proof.
   - apply (inv_pend s I).
   - apply (inv_home s I).
   - apply (inv_nofail s I).
+  - apply (inv_next s I).
 Qed.
 
 Lemma ack_case_dec s o : ack_case s o \/ ~ ack_case s o.
@@ -1078,6 +1091,13 @@ Proof. vm_compute. repeat split. Qed.
 
 Example d16_not_safe : ~ safe_run_k DelByClid init d16_ops.
 Proof. vm_compute. intuition discriminate. Qed.
+
+(* bound methods and Referenceables side by side: one counter, one table, negated numbers for the methods; a re-send uses
+   the clid on file *)
+Example method_clids_example :
+  let s := run init [Send (-1) false; Send 1 false; Send (-2) false; Send (-1) false] in
+  map (fun e => (oe_obj e, oe_clid e, oe_rc e)) (o_tab (ow s)) = [(-2, -3, 1); (1, 2, 1); (-1, -1, 2)] /\ o_next (ow s) = 4.
+Proof. vm_compute. split; reflexivity. Qed.
 
 (* ------------------------------------------------------------------ *)
 (* C08: home *)
